@@ -1,6 +1,7 @@
 import logging
 import networkx as nx
 import pysmiles
+from .cgsmiles_utils import split_bonding_descriptor
 from pysmiles.smiles_helper import (_annotate_ez_isomers,
                                     remove_explicit_hydrogens,
                                     add_explicit_hydrogens)
@@ -90,7 +91,7 @@ def rebuild_h_atoms(mol_graph,
     if keep_bonding:
         bonding_nodes = nx.get_node_attributes(mol_graph, 'bonding')
         for node, bond_ops in bonding_nodes.items():
-            mol_graph.nodes[node]['hcount'] -= sum([int(bond[-1]) for bond in bond_ops])
+            mol_graph.nodes[node]['hcount'] -= sum([split_bonding_descriptor(bond)[1] for bond in bond_ops])
 
     # now we add the hydrogen atoms
     pysmiles.smiles_helper.add_explicit_hydrogens(mol_graph)
